@@ -946,11 +946,13 @@ Qed.
 
 (* ---------------------------------------------------------------------- *)
 (* the timeout loop of uv__io_poll                                          *)
-Definition pinv (T : Z) (s : pst) : Prop :=
+(* invariant: outside the metrics probe the timeout about to be passed is exactly what is left *)
+Definition pinv (m : bool) (T : Z) (s : pst) : Prop :=
   0 <= p_now s /\
-  (if p_reset s then p_timeout s = 0 /\ p_user s = T /\ p_real s = T /\ p_now s = 0
-   else 0 <= p_timeout s /\ p_real s = p_timeout s /\ p_timeout s + p_now s <= T).
-Definition call_ok (T : Z) (c : Z * Z) : Prop := fst c + snd c <= T /\ 0 <= fst c.
+  (if p_reset s then m = true /\ p_timeout s = 0 /\ p_user s = T /\ p_real s = T /\ p_now s = 0 /\ p_base s = 0
+   else 0 <= p_timeout s /\ p_real s = p_timeout s /\ p_timeout s + p_now s = T /\ p_base s = p_now s).
+Definition call_good (m : bool) (T : Z) (c : Z * Z) : Prop :=
+  (fst c + snd c <= T /\ 0 <= fst c) /\ (fst c = T - snd c \/ (m = true /\ c = (0, 0))).
 
 Lemma elapsed_ok_spec t e : elapsed_ok t e = true -> 0 <= t -> 0 <= e <= t.
 Proof. unfold elapsed_ok. intros H Ht. lia. Qed.
@@ -977,60 +979,60 @@ Proof.
 Qed.
 
 (* one trip through "reset / update_timeout" keeps the invariant *)
-Lemma update_inv T s now ok s' :
-  0 <= T -> pinv T s -> p_now s <= now -> now <= p_now s + p_timeout s ->
+Lemma update_inv m T s now ok s' :
+  0 <= T -> pinv m T s -> p_now s <= now -> now <= p_now s + p_timeout s ->
   update_timeout (after_reset s now ok) = Some s' ->
-  pinv T s' /\ p_ok s' = ok /\ call_ok T (p_timeout s', p_now s').
+  pinv m T s' /\ p_ok s' = ok /\ p_reset s' = false /\ p_now s' = now.
 Proof.
   intros HT (N & I) L1 L2. unfold update_timeout, after_reset.
   destruct (p_reset s) eqn:R; cbn.
-  - destruct I as (A & B & C & D).
+  - destruct I as (M & A & B & C & D & E).
     destruct (Z.eqb_spec (p_user s) 0); [discriminate|].
     destruct (Z.eqb_spec (p_user s) (-1)); [lia|].
-    destruct (Z.leb_spec (p_real s - now) 0); [discriminate|].
-    intros E; inversion E; subst; clear E. unfold pinv, call_ok; cbn. repeat split; lia.
-  - destruct I as (A & B & C).
+    destruct (Z.leb_spec (p_real s - (now - p_base s)) 0); [discriminate|].
+    intros X; inversion X; subst; clear X. unfold pinv; cbn. repeat split; lia.
+  - destruct I as (A & B & C & D).
     destruct (Z.eqb_spec (p_timeout s) 0); [discriminate|].
     destruct (Z.eqb_spec (p_timeout s) (-1)); [lia|].
-    destruct (Z.leb_spec (p_real s - now) 0); [discriminate|].
-    intros E; inversion E; subst; clear E. unfold pinv, call_ok; cbn. repeat split; lia.
+    destruct (Z.leb_spec (p_real s - (now - p_base s)) 0); [discriminate|].
+    intros X; inversion X; subst; clear X. unfold pinv; cbn. repeat split; lia.
 Qed.
 
 Ltac fl := repeat (apply Forall_cons; [assumption|]); assumption.
 
-Lemma io_poll_tail_bound T s log :
-  0 <= T -> pinv T s -> Forall (call_ok T) log ->
-  r_blocked (io_poll_tail s log) <= T /\ Forall (call_ok T) (r_calls (io_poll_tail s log)).
+Lemma pinv_call m T s : 0 <= T -> pinv m T s -> call_good m T (p_timeout s, p_now s).
 Proof.
-  intros HT Inv FL. pose proof Inv as (N & I). unfold io_poll_tail.
-  assert (C0 : call_ok T (p_timeout s, p_now s)).
-  { unfold call_ok; cbn. destruct (p_reset s); lia. }
+  intros HT (N & I). unfold call_good. cbn.
+  destruct (p_reset s).
+  - destruct I as (M & A & B & C & D & E). rewrite A, D. split; [lia|]. right; auto.
+  - split; [lia|]. left; lia.
+Qed.
+
+Lemma io_poll_tail_bound m T s log :
+  0 <= T -> pinv m T s -> Forall (call_good m T) log ->
+  r_blocked (io_poll_tail s log) <= T /\ Forall (call_good m T) (r_calls (io_poll_tail s log)).
+Proof.
+  intros HT Inv FL. pose proof (pinv_call m T s HT Inv) as C0. pose proof Inv as (N & I). unfold io_poll_tail.
   destruct (Z.ltb_spec (p_timeout s) 0); cbn.
   - split; [destruct (p_reset s); lia | fl].
   - destruct (p_reset s) eqn:R; cbn.
     + destruct (update_timeout _) as [s'|] eqn:U; cbn.
-      * destruct (update_inv T s (p_now s + p_timeout s) (p_ok s) s' HT Inv ltac:(lia) ltac:(lia) U)
-          as ((N' & I') & _ & C').
-        assert (R' : p_reset s' = false).
-        { revert U. unfold update_timeout, after_reset. rewrite R. cbn.
-          repeat match goal with |- context [if ?c then _ else _] => destruct c end;
-            intros U; inversion U; reflexivity. }
-        rewrite R' in I'.
+      * destruct (update_inv m T s (p_now s + p_timeout s) (p_ok s) s' HT Inv ltac:(lia) ltac:(lia) U)
+          as (Inv' & _ & R' & X).
+        pose proof (pinv_call m T s' HT Inv') as C'. destruct Inv' as (N' & I'). rewrite R' in I'.
         destruct (Z.ltb_spec (p_timeout s') 0); cbn; (split; [lia | fl]).
       * split; [lia | fl].
     + split; [lia | fl].
 Qed.
 
-Lemma io_poll_loop_bound T o : forall s log,
-  0 <= T -> pinv T s -> Forall (call_ok T) log ->
+Lemma io_poll_loop_bound m T o : forall s log,
+  0 <= T -> pinv m T s -> Forall (call_good m T) log ->
   r_ok (io_poll_loop o s log) = true ->
-  r_blocked (io_poll_loop o s log) <= T /\ Forall (call_ok T) (r_calls (io_poll_loop o s log)).
+  r_blocked (io_poll_loop o s log) <= T /\ Forall (call_good m T) (r_calls (io_poll_loop o s log)).
 Proof.
   induction o as [|a r IH]; intros s log HT Inv FL OK.
   - apply io_poll_tail_bound; auto.
-  - pose proof Inv as (N & I).
-    assert (C0 : call_ok T (p_timeout s, p_now s)).
-    { unfold call_ok; cbn. destruct (p_reset s); lia. }
+  - pose proof (pinv_call m T s HT Inv) as C0. pose proof Inv as (N & I).
     assert (T0 : 0 <= p_timeout s) by (destruct (p_reset s); lia).
     assert (B0 : p_timeout s + p_now s <= T) by (destruct (p_reset s); lia).
     cbn [io_poll_loop] in *. destruct a.
@@ -1042,19 +1044,28 @@ Proof.
             repeat match goal with |- context [if ?c then _ else _] => destruct c end;
             intros U; inversion U; subst; cbn; intros H; apply andb_prop in H; tauto. }
         destruct (elapsed_ok_spec _ _ EO T0) as [E1 E2].
-        destruct (update_inv T s (p_now s + e) _ s' HT Inv ltac:(lia) ltac:(lia) U) as (Inv' & _ & C').
-        apply IH; auto.
+        destruct (update_inv m T s (p_now s + e) _ s' HT Inv ltac:(lia) ltac:(lia) U) as (Inv' & _).
+        apply IH; auto; try fl.
       * cbn in *. apply andb_prop in OK. destruct OK as [_ EO].
         destruct (elapsed_ok_spec _ _ EO T0). split; [lia | fl].
     + destruct (Z.ltb_spec (p_timeout s) 0); cbn in *; [lia|].
       destruct (p_reset s) eqn:R; cbn in *.
       * destruct (update_timeout _) as [s'|] eqn:U; cbn in *.
-        -- destruct (update_inv T s (p_now s + p_timeout s) _ s' HT Inv ltac:(lia) ltac:(lia) U) as (Inv' & _ & C').
-           apply IH; auto.
+        -- destruct (update_inv m T s (p_now s + p_timeout s) _ s' HT Inv ltac:(lia) ltac:(lia) U) as (Inv' & _).
+           apply IH; auto; try fl.
         -- split; [lia | fl].
       * split; [lia | fl].
     + cbn in *. apply andb_prop in OK. destruct OK as [_ EO].
       destruct (elapsed_ok_spec _ _ EO T0). split; [lia | fl].
+Qed.
+
+Lemma io_poll_good metrics T o :
+  0 <= T -> r_ok (io_poll metrics T o) = true ->
+  r_blocked (io_poll metrics T o) <= T /\ Forall (call_good metrics T) (r_calls (io_poll metrics T o)).
+Proof.
+  intros HT OK. unfold io_poll in *.
+  apply (io_poll_loop_bound metrics T); auto.
+  destruct metrics; unfold pinv; cbn; repeat split; lia.
 Qed.
 
 (* C16_io_poll_respects_timeout *)
@@ -1063,9 +1074,18 @@ Lemma io_poll_respects_timeout metrics T o :
   r_blocked (io_poll metrics T o) <= T /\
   Forall (fun c => fst c + snd c <= T /\ 0 <= fst c) (r_calls (io_poll metrics T o)).
 Proof.
-  intros HT OK. unfold io_poll in *.
-  apply (io_poll_loop_bound T); auto.
-  destruct metrics; unfold pinv; cbn; repeat split; lia.
+  intros HT OK. destruct (io_poll_good metrics T o HT OK) as [A B]. split; [exact A|].
+  eapply Forall_impl; [|exact B]. intros c [H _]. exact H.
+Qed.
+
+(* C16_io_poll_retry_exact: every call passes exactly given - elapsed-so-far; the only other
+   call is the non-blocking probe of the metrics variant at time 0 *)
+Lemma io_poll_retry_exact metrics T o :
+  0 <= T -> r_ok (io_poll metrics T o) = true ->
+  Forall (fun c => fst c = T - snd c \/ (metrics = true /\ c = (0, 0))) (r_calls (io_poll metrics T o)).
+Proof.
+  intros HT OK. destruct (io_poll_good metrics T o HT OK) as [_ B].
+  eapply Forall_impl; [|exact B]. intros c [_ H]. exact H.
 Qed.
 
 (* the calls are logged in order, first the one with the state's own timeout *)
@@ -1091,49 +1111,6 @@ Proof.
 Qed.
 
 Definition nth_call (k : nat) (r : pres) : option (Z * Z) := nth_error (rev (r_calls r)) k.
-
-(* the first retry after an interruption passes exactly given - elapsed *)
-Lemma io_poll_first_retry_exact T e o :
-  0 <= e < T ->
-  nth_call 0 (io_poll false T (PIntr e :: o)) = Some (T, 0) /\
-  nth_call 1 (io_poll false T (PIntr e :: o)) = Some (T - e, e).
-Proof.
-  intros H. unfold io_poll, nth_call. cbn [io_poll_loop].
-  unfold update_timeout, after_reset. cbn.
-  destruct (Z.eqb_spec T 0); [lia|]. destruct (Z.eqb_spec T (-1)); [lia|].
-  destruct (Z.leb_spec (T - e) 0); [lia|].
-  match goal with |- context [io_poll_loop o ?s ?lg] => destruct (io_poll_loop_calls o s lg) as (l & E) end.
-  rewrite E. cbn. rewrite rev_app_distr. cbn. split; reflexivity.
-Qed.
-
-(* ... but later retries subtract the time since entry again from an already reduced
-   real_timeout (base is never advanced): the function wakes up early *)
-Lemma io_poll_retry_exact_refuted :
-  exists T o,
-    r_ok (io_poll false T o) = true /\
-    nth_call 2 (io_poll false T o) = Some (700, 200) /\ 700 <> T - 200 /\
-    r_end (io_poll false T o) = PeTimeout /\ r_blocked (io_poll false T o) < T.
-Proof. exists 1000, [PIntr 100; PIntr 100]. vm_compute. repeat split; congruence. Qed.
-
-Lemma io_poll_zero_intr_not_transparent :
-  r_blocked (io_poll false 1000 [PIntr 100; PIntr 0]) <> r_blocked (io_poll false 1000 [PIntr 100]).
-Proof. vm_compute. congruence. Qed.
-
-(* what does hold: one interruption is exact ... *)
-Lemma io_poll_single_intr_exact T e :
-  0 <= e < T ->
-  r_blocked (io_poll false T [PIntr e]) = T /\ r_end (io_poll false T [PIntr e]) = PeTimeout /\
-  r_blocked (io_poll false T []) = T /\ r_end (io_poll false T []) = PeTimeout.
-Proof.
-  intros H. unfold io_poll. cbn [io_poll_loop]. unfold io_poll_tail, update_timeout, after_reset. cbn.
-  destruct (Z.eqb_spec T 0); [lia|]. destruct (Z.eqb_spec T (-1)); [lia|].
-  destruct (Z.leb_spec (T - e) 0); [lia|]. cbn.
-  destruct (Z.ltb_spec (T - e) 0); [lia|]. destruct (Z.ltb_spec T 0); [lia|]. cbn.
-  repeat split; lia.
-Qed.
-
-(* ... and any number of interruptions that report no elapsed time, before anything has
-   elapsed, change nothing but the number of calls *)
 Definition pobs (r : pres) := (r_blocked r, r_end r, r_ok r).
 
 Lemma io_poll_log_irrelevant o : forall s log1 log2,
@@ -1150,46 +1127,75 @@ Proof.
     + reflexivity.
 Qed.
 
-Lemma io_poll_zero_storm s o :
-  p_now s = 0 -> p_reset s = false -> p_real s = p_timeout s -> (0 < p_timeout s \/ p_timeout s = -1) ->
-  forall k log log', pobs (io_poll_loop (repeat (PIntr 0) k ++ o) s log) = pobs (io_poll_loop o s log').
+(* the state of the plain variant [n] ms after entry, nothing but interruptions so far *)
+Definition pstate (T n : Z) : pst := mkP n (T - n) (T - n) false 0 true n.
+
+(* any interruptions, of any reported length, lead to the state that depends on the total
+   elapsed time only *)
+Lemma io_poll_intr_prefix T o : forall es n log,
+  0 <= n -> Forall (fun e => 0 <= e) es -> n + fold_right Z.add 0 es < T ->
+  exists log', io_poll_loop (map PIntr es ++ o) (pstate T n) log =
+               io_poll_loop o (pstate T (n + fold_right Z.add 0 es)) log'.
 Proof.
-  intros N R E NZ k. induction k as [|k IH]; intros log log'; cbn [repeat app]; [apply io_poll_log_irrelevant|].
-  cbn [io_poll_loop]. unfold after_reset. rewrite R.
-  assert (OKE : (p_ok s && elapsed_ok (p_timeout s) 0)%bool = p_ok s).
-  { unfold elapsed_ok. destruct (p_ok s); cbn; [|reflexivity]. lia. }
-  rewrite OKE. unfold update_timeout. cbn.
-  destruct (Z.eqb_spec (p_timeout s) 0); [lia|].
-  replace (p_now s + 0) with 0 by lia.
-  destruct (Z.eqb_spec (p_timeout s) (-1)).
-  - replace (mkP 0 (p_real s) (p_timeout s) false (p_user s) (p_ok s)) with s
-      by (destruct s; cbn in *; subst; reflexivity). apply IH.
-  - destruct (Z.leb_spec (p_real s - 0) 0); [lia|].
-    replace (mkP 0 (p_real s - 0) (p_real s - 0) false (p_user s) (p_ok s)) with s
-      by (destruct s; cbn in *; subst; f_equal; lia). apply IH.
+  induction es as [|e es IH]; intros n log Hn F S.
+  - cbn. exists log. replace (n + 0) with n by lia. reflexivity.
+  - inversion F as [|x y F1 F2]; subst. cbn [fold_right] in S.
+    assert (0 <= fold_right Z.add 0 es).
+    { clear - F2. induction es; cbn; [lia|]. inversion F2; subst. specialize (IHes H2). lia. }
+    cbn [map app io_poll_loop]. unfold after_reset. cbn.
+    assert (EO : elapsed_ok (T - n) e = true) by (unfold elapsed_ok; lia).
+    rewrite EO. unfold update_timeout. cbn.
+    destruct (Z.eqb_spec (T - n) 0); [lia|]. destruct (Z.eqb_spec (T - n) (-1)); [lia|].
+    destruct (Z.leb_spec (T - n - (n + e - n)) 0); [lia|].
+    replace (T - n - (n + e - n)) with (T - (n + e)) by lia.
+    destruct (IH (n + e) ((T - n, n) :: log) ltac:(lia) F2 ltac:(lia)) as (log' & E).
+    unfold pstate in E. rewrite E. exists log'. cbn [fold_right].
+    replace (n + e + fold_right Z.add 0 es) with (n + (e + fold_right Z.add 0 es)) by lia. reflexivity.
 Qed.
 
-(* C16_io_poll_eintr_transparent, the part that holds: a storm of k interruptions that report no
-   elapsed time in front of any script *)
-Lemma io_poll_eintr_storm_transparent T k o :
-  (0 < T \/ T = -1) ->
-  pobs (io_poll false T (repeat (PIntr 0) k ++ o)) = pobs (io_poll false T o).
-Proof. intros H. unfold io_poll. apply io_poll_zero_storm; cbn; auto. Qed.
+(* C16_io_poll_eintr_transparent *)
+Lemma io_poll_eintr_transparent T es1 es2 o :
+  Forall (fun e => 0 <= e) es1 -> Forall (fun e => 0 <= e) es2 ->
+  fold_right Z.add 0 es1 = fold_right Z.add 0 es2 -> fold_right Z.add 0 es1 < T ->
+  pobs (io_poll false T (map PIntr es1 ++ o)) = pobs (io_poll false T (map PIntr es2 ++ o)).
+Proof.
+  intros F1 F2 E L. unfold io_poll.
+  change (mkP 0 T T false 0 true 0) with (mkP 0 T T false 0 true 0).
+  replace (mkP 0 T T false 0 true 0) with (pstate T 0) by (unfold pstate; f_equal; lia).
+  destruct (io_poll_intr_prefix T o es1 0 [] ltac:(lia) F1 ltac:(lia)) as (l1 & E1).
+  destruct (io_poll_intr_prefix T o es2 0 [] ltac:(lia) F2 ltac:(lia)) as (l2 & E2).
+  rewrite E1, E2, E. apply io_poll_log_irrelevant.
+Qed.
+
+(* whatever the interruptions, an otherwise quiet poll wakes up exactly when the timeout is over *)
+Lemma io_poll_wakeup_exact T es :
+  Forall (fun e => 0 <= e) es -> fold_right Z.add 0 es < T ->
+  r_blocked (io_poll false T (map PIntr es)) = T /\ r_end (io_poll false T (map PIntr es)) = PeTimeout /\
+  r_ok (io_poll false T (map PIntr es)) = true.
+Proof.
+  intros F L. unfold io_poll.
+  replace (mkP 0 T T false 0 true 0) with (pstate T 0) by (unfold pstate; f_equal; lia).
+  assert (0 <= fold_right Z.add 0 es).
+  { clear - F. induction es; cbn; [lia|]. inversion F; subst. specialize (IHes H2). lia. }
+  destruct (io_poll_intr_prefix T [] es 0 [] ltac:(lia) F ltac:(lia)) as (l1 & E1).
+  rewrite app_nil_r in E1. rewrite E1. cbn [io_poll_loop]. unfold io_poll_tail, pstate. cbn.
+  destruct (Z.ltb_spec (T - fold_right Z.add 0 es) 0); [lia|]. cbn. repeat split; lia.
+Qed.
 
 (* the metrics variant: once the non-blocking first call has found nothing (timed out or was
    interrupted) it continues exactly like the plain variant *)
 Lemma io_poll_user_irrelevant o : forall s u log,
   p_reset s = false ->
-  io_poll_loop o (mkP (p_now s) (p_real s) (p_timeout s) false u (p_ok s)) log = io_poll_loop o s log.
+  io_poll_loop o (mkP (p_now s) (p_real s) (p_timeout s) false u (p_ok s) (p_base s)) log = io_poll_loop o s log.
 Proof.
   induction o as [|a r IH]; intros s u log R.
   - unfold io_poll_loop, io_poll_tail. cbn. rewrite R. reflexivity.
   - cbn [io_poll_loop]. cbn. rewrite R. unfold after_reset, update_timeout. cbn. rewrite R. cbn.
     destruct a.
     + destruct (p_timeout s =? 0); [reflexivity|]. destruct (p_timeout s =? -1).
-      * apply (IH (mkP (p_now s + e) (p_real s) (p_timeout s) false (p_user s) (p_ok s && elapsed_ok (p_timeout s) e)) u); reflexivity.
-      * destruct (p_real s - (p_now s + e) <=? 0); [reflexivity|].
-        apply (IH (mkP (p_now s + e) (p_real s - (p_now s + e)) (p_real s - (p_now s + e)) false (p_user s) (p_ok s && elapsed_ok (p_timeout s) e)) u); reflexivity.
+      * apply (IH (mkP (p_now s + e) (p_real s) (p_timeout s) false (p_user s) (p_ok s && elapsed_ok (p_timeout s) e) (p_base s)) u); reflexivity.
+      * destruct (p_real s - (p_now s + e - p_base s) <=? 0); [reflexivity|].
+        apply (IH (mkP (p_now s + e) (p_real s - (p_now s + e - p_base s)) (p_real s - (p_now s + e - p_base s)) false (p_user s) (p_ok s && elapsed_ok (p_timeout s) e) (p_now s + e)) u); reflexivity.
     + reflexivity.
     + reflexivity.
 Qed.
@@ -1199,12 +1205,55 @@ Lemma io_poll_metrics_reduces T o probe :
   pobs (io_poll true T (probe :: o)) = pobs (io_poll false T o).
 Proof.
   intros HT HP. unfold io_poll. cbn [io_poll_loop]. cbn.
-  assert (K : pobs (io_poll_loop o (mkP 0 T T false T true) [(0, 0)]) =
-              pobs (io_poll_loop o (mkP 0 T T false 0 true) [])).
-  { pose proof (io_poll_user_irrelevant o (mkP 0 T T false 0 true) T [(0, 0)] eq_refl) as U.
+  assert (K : pobs (io_poll_loop o (mkP 0 T T false T true 0) [(0, 0)]) =
+              pobs (io_poll_loop o (mkP 0 T T false 0 true 0) [])).
+  { pose proof (io_poll_user_irrelevant o (mkP 0 T T false 0 true 0) T [(0, 0)] eq_refl) as U.
     cbn in U. rewrite U. apply io_poll_log_irrelevant. }
   destruct HP as [-> | ->]; cbn; unfold update_timeout, after_reset; cbn;
     (destruct (Z.eqb_spec T 0); [lia|]); (destruct (Z.eqb_spec T (-1)); [subst; exact K|]);
-    (destruct (Z.leb_spec (T - 0) 0); [lia|]);
-    replace (T - 0) with T by lia; exact K.
+    match goal with |- context [?x <=? 0] => destruct (Z.leb_spec x 0); [lia|]; replace x with T by lia end;
+    exact K.
 Qed.
+
+(* ---- history: the loop before /repo c841fbc never advanced base ------------------------- *)
+Definition update_timeout_unfixed (s : pst) : option pst :=
+  if p_timeout s =? 0 then None
+  else if p_timeout s =? -1 then Some s
+  else
+    let real := p_real s - (p_now s - p_base s) in
+    if real <=? 0 then None
+    else Some (mkP (p_now s) real real (p_reset s) (p_user s) (p_ok s) (p_base s)).
+
+Fixpoint io_poll_loop_unfixed (o : list pans) (s : pst) (log : list (Z * Z)) : pres :=
+  match o with
+  | [] =>
+    let t := p_timeout s in
+    mkR ((t, p_now s) :: log) (p_now s + t) PeTimeout (p_ok s)      (* plain variant, t >= 0 *)
+  | a :: r =>
+    let t := p_timeout s in
+    let log := (t, p_now s) :: log in
+    match a with
+    | PEvents e => mkR log (p_now s + e) PeEvents (p_ok s && elapsed_ok t e)
+    | PTimeout => mkR log (p_now s + t) PeTimeout (p_ok s)
+    | PIntr e =>
+      let ok := p_ok s && elapsed_ok t e in
+      match update_timeout_unfixed (after_reset s (p_now s + e) ok) with
+      | None => mkR log (p_now s + e) PeBreak ok
+      | Some s' => io_poll_loop_unfixed r s' log
+      end
+    end
+  end.
+Definition io_poll_unfixed (timeout : Z) (o : list pans) : pres :=
+  io_poll_loop_unfixed o (mkP 0 timeout timeout false 0 true 0) [].
+
+Lemma io_poll_unfixed_retry_exact_refuted :
+  exists T o,
+    r_ok (io_poll_unfixed T o) = true /\
+    nth_call 2 (io_poll_unfixed T o) = Some (700, 200) /\ 700 <> T - 200 /\
+    r_end (io_poll_unfixed T o) = PeTimeout /\ r_blocked (io_poll_unfixed T o) < T.
+Proof. exists 1000, [PIntr 100; PIntr 100]. vm_compute. repeat split; congruence. Qed.
+
+Lemma io_poll_unfixed_not_transparent :
+  r_blocked (io_poll_unfixed 1000 [PIntr 100; PIntr 0]) <> r_blocked (io_poll_unfixed 1000 [PIntr 100]) /\
+  r_blocked (io_poll false 1000 [PIntr 100; PIntr 0]) = r_blocked (io_poll false 1000 [PIntr 100]).
+Proof. vm_compute. split; congruence. Qed.
